@@ -7,7 +7,7 @@
    (2) Inventory: every form name must belong to the inventory of its operation (Inventory.tla);
        the check measures which inventory cells a run exercised.
    (3) Clone independence: the register machine CloneMachine below. *)
-EXTENDS BigInt, Inventory
+EXTENDS Rat, Inventory
 
 Fam(e) == IF "fam" \in DOMAIN e THEN e.fam ELSE e.prop
 Key(e) == Fam(e) \o ":" \o e.op \o (IF "lt" \in DOMAIN e THEN ":" \o e.lt \o e.rt ELSE "")
@@ -21,9 +21,19 @@ DivPartsAgree(v, w) ==
   /\ (v.conv = "M" /\ w.conv = "T" /\ w.hr = 1) => (v.mult = (w.r.m = <<>>))
 DivAgree(o1, o2) == IF o1.k = "panic" \/ o2.k = "panic" THEN o1.k = o2.k
                     ELSE DivPartsAgree(o1.v, o2.v) /\ DivPartsAgree(o2.v, o1.v)
+\* rationals are compared by value (a Relaxed result need not be in lowest terms)
+RatVal(v) == Q(v.num, v.den.m)
+SameRat(a, b) == a = b \/ (a.den.m # <<>> /\ b.den.m # <<>> /\ QEq(RatVal(a), RatVal(b)))
+EuclidPartsAgree(v, w) == /\ (v.hq = 1 /\ w.hq = 1 => v.q = w.q)
+                          /\ (v.hr = 1 /\ w.hr = 1 => SameRat(v.r, w.r))
+RatAgree(e, o1, o2) ==
+  IF o1.k = "panic" \/ o2.k = "panic" THEN o1.k = o2.k
+  ELSE IF e.op = "euclid" THEN EuclidPartsAgree(o1.v, o2.v) ELSE SameRat(o1.v, o2.v)
 Disagreement(e) ==
   IF Fam(e) = "C02"
   THEN \E i, j \in 1..Len(e.outs) : i < j /\ ~DivAgree(e.outs[i].out, e.outs[j].out)
+  ELSE IF Fam(e) \in {"rbig", "relaxed"}
+  THEN \E i, j \in 1..Len(e.outs) : i < j /\ ~RatAgree(e, e.outs[i].out, e.outs[j].out)
   ELSE Len(e.outs) > 1          \* groups are maximal sets of forms with identical outcome
 
 UnknownForms(e) == IF Key(e) \notin DOMAIN Inventory THEN {"<no inventory for " \o Key(e) \o ">"}
